@@ -23,7 +23,7 @@ PInit == pid \in 1..Len(Pairs) /\ k = 0
 P == Pairs[pid]
 
 (* projection of one event; <<>> = dropped *)
-MaskSnap(sn, f) == [i \in 1..Len(sn) |-> IF i = f - 1 THEN <<sn[i][1], "masked", 0>> ELSE sn[i]]
+MaskSnap(sn, f) == [i \in 1..Len(sn) |-> IF i = f - 1 THEN <<sn[i][1], "masked", 0, 0>> ELSE sn[i]]
 ProjFlip(e, f) ==
   IF e.k = "snap" THEN <<e.t, "snap", 0, "-", 0, MaskSnap(e.sn, f)>>
   ELSE IF e.k \in {"end", "raise"} /\ e.n = f THEN <<e.t, "fin", f, "-", 0, <<>>>>
